@@ -408,3 +408,59 @@ def cache_shape_scenarios():
             chunks.append((b * 0x4000, [0x3E, nb, 0xEA, 0x00, 0x20, 0x06, b, 0xC9]))
         out.append(("selfswitch", scenario(6000100 + ci, chunks, cpu(pc=0x100, sp=0xFFFE), 12, mode="block", cart=cart)))
     return out
+
+
+# ------------------------------------------------------------------ serial
+BOOT = dict(a=1, f=0xB0, b=0, c=0x13, d=0, e=0xD8, h=1, l=0x4D, sp=0xFFFE, pc=0x100)
+
+def serial_program(sid, rng, nwrites=None, in_ram=False):
+    """Arbitrary sequences of writes to SB (0xFF01) and SC (0xFF02) through different instructions."""
+    a = Asm(0x150)
+    a.emit(0x31); a.word(0xDFF0)
+    body = Asm(0xC400 if in_ram else 0x0)     # assembled separately when it is to run from work RAM
+    t = body if in_ram else a
+    n = nwrites or rng.randint(4, 40)
+    for _ in range(n):
+        reg = rng.choice([1, 2, 2, 2])
+        v = rng.choice([0x80, 0x81, 0xFF, 0x00, 0x01, 0x7F]) if (reg == 2 and rng.randrange(3)) else rng.randrange(256)
+        k = rng.randrange(6)
+        if k == 0:   t.emit(0x3E, v, 0xE0, reg)                                   # LD A,v ; LDH (reg),A
+        elif k == 1: t.emit(0x3E, v, 0x0E, reg, 0xE2)                             # LD C,reg ; LD (C),A
+        elif k == 2: t.emit(0x21, reg, 0xFF, 0x36, v)                             # LD HL,0xFF0r ; LD (HL),v
+        elif k == 3: t.emit(0x3E, v, 0xEA, reg, 0xFF)                             # LD (0xFF0r),A
+        elif k == 4: t.emit(0x21, 0x01, 0xFF, 0x3E, v, 0x22, 0x3E, rng.randrange(256), 0x77)   # SB then SC through (HL+)
+        else:
+            w = rng.randrange(65536)                                              # PUSH landing on SC (high byte) and SB (low byte)
+            t.emit(0x01, w & 0xFF, w >> 8, 0x31, 0x03, 0xFF, 0xC5, 0x31, 0xF0, 0xDF)
+        if rng.randrange(4) == 0:
+            for _ in range(rng.randint(1, 3)): t.emit(*alu_op(rng))
+    chunks = [(0x100, [0x00, 0xC3, 0x50, 0x01])]
+    if in_ram:
+        code = body.resolve() + [0xC9]
+        a.emit(0x21); a.word(0xC400)
+        for x in code: a.emit(0x36, x, 0x23)
+        a.emit(0xCD); a.word(0xC400)
+        steps = 4 * len(code) + 60
+    else:
+        steps = 6 * n + 40
+    a.label("END"); a.jr(0x18, "END")
+    chunks.append((a.org, a.resolve()))
+    return scenario(sid, chunks, cpu(**BOOT), steps, cart=(0, 0, 0), romfill=0x00)
+
+def serial_programs(n, rng, start_id=7000000):
+    return [serial_program(start_id + i, rng, in_ram=(i % 3 == 2)) for i in range(n)]
+
+def rom_file_bytes(sc, title=b"VERIFTEST"):
+    """A ROM file (valid header) for a scenario, for the repository's own binary."""
+    banks = {0: 2, 1: 4, 2: 8, 3: 16, 4: 32, 5: 64, 6: 128}[sc["cart"][1]]
+    img = bytearray([sc["romfill"]]) * (banks * 0x4000)
+    for base, bs in sc["rom"]:
+        img[base:base + len(bs)] = bytes(bs)
+    img[0x134:0x134 + 11] = title.ljust(11, b"\0")[:11]
+    img[0x13F:0x14D] = bytes(14)
+    img[0x147], img[0x148], img[0x149] = sc["cart"]
+    chk = 0
+    for i in range(0x134, 0x14D):
+        chk = (chk - img[i] - 1) & 0xFF
+    img[0x14D] = chk
+    return bytes(img)
